@@ -221,10 +221,13 @@ Definition finish_encoding (W : world) (eo en : enc) (rules : list rrule) : opti
 Record loaded := { l_found : bool; l_href : option str; l_rules : list rrule }.
 Definition not_loaded : loaded := {| l_found := false; l_href := None; l_rules := [] |}.
 
-(* parse of an imported sheet: href of the sheet, its __encodingOverride, its __newEncoding, the text, the trace *)
-Definition loader := url -> enc -> enc -> src -> trace -> res (list rrule * trace).
+(* parse of an imported sheet: href of the sheet, the hrefs of the import chain (this sheet first), its
+   __encodingOverride, its __newEncoding, the text, the trace *)
+Definition loader := url -> list str -> enc -> enc -> src -> trace -> res (list rrule * trace).
 
-Definition set_href (ld : loader) (W : world) (cwd : url) (base : option url) (override parent : enc)
+(* anc: the hrefs of the sheets of the import chain, innermost (the sheet that contains the rule) first:
+   parentStyleSheet.href, parentStyleSheet.ownerRule.parentStyleSheet.href, ... *)
+Definition set_href (ld : loader) (W : world) (cwd : url) (base : option url) (anc : list str) (override parent : enc)
            (h : url) (tr : trace) : res (loaded * trace) :=
   if negb (nonempty (raw h)) then Normal (not_loaded, tr) else
   let b := match base with Some b => b | None => cwd end in
@@ -233,13 +236,14 @@ Definition set_href (ld : loader) (W : world) (cwd : url) (base : option url) (o
   match urljoin b h with
   | None => if join_guarded then raise E_ValueError tr not_loaded else Escapes E_ValueError tr
   | Some full =>
+      if cycle_guard && mem_str (raw full) anc then raise raised_on_cycle tr not_loaded else
       let tr1 := raw full :: tr in
       match readurl W override parent (fetch W tr (raw full)) with
       | RdRaise e => raise e tr1 not_loaded
       | RdNone => raise raised_on_none tr1 not_loaded
       | RdOk used enctype t =>
           let '(eo, en) := split_enc enctype used in
-          match ld full (opt_truthy eo) (opt_truthy en) (parse W t) tr1 with
+          match ld full (raw full :: anc) (opt_truthy eo) (opt_truthy en) (parse W t) tr1 with
           | OutOfDepth => OutOfDepth
           | Escapes e tr2 => raise e tr2 {| l_found := false; l_href := Some (raw full); l_rules := [] |}
           | Normal (rules, tr2) =>
@@ -262,12 +266,12 @@ Definition parent_encoding (newenc : enc) (acc : list rrule) : enc :=
   | None => match acc with RCharset e :: _ => Some e | _ => None end
   end.
 
-Fixpoint items_loop (ld : loader) (W : world) (cwd : url) (base : option url) (override newenc : enc)
+Fixpoint items_loop (ld : loader) (W : world) (cwd : url) (base : option url) (anc : list str) (override newenc : enc)
          (items : list item) (expected : N) (acc : list rrule) (tr : trace) : res (list rrule * trace) :=
   match items with
   | [] => Normal (acc, tr)
   | it :: rest =>
-      let continue := items_loop ld W cwd base override newenc rest in
+      let continue := items_loop ld W cwd base anc override newenc rest in
       match it with
       | IComment t => continue (N.max 1 expected) (acc ++ [RComment t]) tr
       | INamespace u => if N.ltb 2 expected then continue expected acc tr
@@ -276,7 +280,7 @@ Fixpoint items_loop (ld : loader) (W : world) (cwd : url) (base : option url) (o
       | IImport h media =>
           let penc := parent_encoding newenc acc in
           (* rule.cssText = ... -> self.href = new['href'] : first load *)
-          match set_href ld W cwd base override penc h tr with
+          match set_href ld W cwd base anc override penc h tr with
           | OutOfDepth => OutOfDepth
           | Escapes e tr1 => Escapes e tr1
           | Normal (l, tr1) =>
@@ -285,7 +289,7 @@ Fixpoint items_loop (ld : loader) (W : world) (cwd : url) (base : option url) (o
               else if l_found l then continue 1%N (acc ++ [mk_import h media l]) tr1
               else
                 (* insertRule: `rule.href = rule.href` retries an unloaded import *)
-                match set_href ld W cwd base override (parent_encoding newenc (acc ++ [mk_import h media l])) h tr1 with
+                match set_href ld W cwd base anc override (parent_encoding newenc (acc ++ [mk_import h media l])) h tr1 with
                 | OutOfDepth => OutOfDepth
                 | Escapes e tr2 => Escapes e tr2
                 | Normal (l2, tr2) => continue 1%N (acc ++ [mk_import h media l2]) tr2
@@ -300,19 +304,22 @@ Definition initial_expected (sr : src) : N :=
   match s_charset sr with Some _ => 1%N | None => 0%N end.
 
 (* parse of one sheet; fuel bounds the nesting depth of imports (the implementation has no bound) *)
-Fixpoint parse_src (fuel : nat) (W : world) (cwd : url) (base : option url) (override newenc : enc)
+Fixpoint parse_src (fuel : nat) (W : world) (cwd : url) (base : option url) (anc : list str) (override newenc : enc)
          (sr : src) (tr : trace) : res (list rrule * trace) :=
   match fuel with
   | O => OutOfDepth
   | S f =>
-      items_loop (fun full o n sr' tr' => parse_src f W cwd (Some full) o n sr' tr')
-                 W cwd base override newenc (s_items sr) (initial_expected sr) (initial_rules sr) tr
+      items_loop (fun full anc' o n sr' tr' => parse_src f W cwd (Some full) anc' o n sr' tr')
+                 W cwd base anc override newenc (s_items sr) (initial_expected sr) (initial_rules sr) tr
   end.
+
+(* the chain of a top-level sheet: its own href (None when it has none: the cwd fallback is not its href) *)
+Definition top_chain (base : option url) : list str := match base with Some b => [raw b] | None => [] end.
 
 (* CSSParser(fetcher=...).parseString(text, encoding=override, href=base) *)
 Definition parse_string (fuel : nat) (W : world) (cwd : url) (base : option url) (override : enc) (sr : src)
   : res (list rrule * trace) :=
-  match parse_src fuel W cwd base (opt_truthy override) None sr [] with
+  match parse_src fuel W cwd base (top_chain base) (opt_truthy override) None sr [] with
   | Normal (rules, tr) =>
       match finish_encoding W override None rules with
       | Some r => Normal (r, tr)
@@ -323,7 +330,7 @@ Definition parse_string (fuel : nat) (W : world) (cwd : url) (base : option url)
 
 (* the loader used at depth `fuel` (for statements about a single assignment of href) *)
 Definition loader_at (fuel : nat) (W : world) (cwd : url) : loader :=
-  fun full o n sr tr => parse_src fuel W cwd (Some full) o n sr tr.
+  fun full anc o n sr tr => parse_src fuel W cwd (Some full) anc o n sr tr.
 
 (* ------------------------------------------------------------------ resolveImports *)
 Inductive frule :=
